@@ -211,7 +211,10 @@ def plan(tier, seed):
         shards.append({"kind": "single", "maxlen": 4 if q else 6, "part": i, "parts": ns})
     for i in range(6 if q else 16):
         shards.append({"kind": "pipes", "n": 450 if q else 9000, "depth": 2 if q else 3, "maxlen": 3 if q else 5})
-    shards.append({"kind": "termination", "n": 60 if q else 600})
+    shards.append({"kind": "termination", "n": 250 if q else 600})
+    if not q:
+        for _ in range(6):
+            shards.append({"kind": "termination", "n": 3000})
     return {
         "level": "exploration",
         "exhaustive": True,
@@ -329,6 +332,9 @@ def worker(spec, out):
                         key = "C07/distinct/bool-num-conflation"
                 out.violation(key, {"pipeline": f["xf_text"] if form != "lazy" else f["lazy_text"], "form": form, "input": xs, "expected": want, "got": got}, case)
 
+    class PullBudget(Exception):
+        pass
+
     class CountingIter:
         def __init__(self, items, infinite=False):
             self.items, self.infinite, self.i, self.pulls = items, infinite, 0, 0
@@ -340,6 +346,8 @@ def worker(spec, out):
             if not self.infinite and self.i >= len(self.items):
                 raise StopIteration
             self.pulls += 1
+            if self.infinite and self.pulls > 20000:
+                raise PullBudget()  # logical bound: the reference result is determined by the first 8L (<= 32) elements
             v = self.items[self.i % len(self.items)]
             self.i += 1
             return v
@@ -360,6 +368,18 @@ def worker(spec, out):
             return  # the predicate never fails within 4L
         if last[0] == "take" and last[1] > 0 and len(ref_pipe(pipe[:-1], base * 3)) < last[1]:
             return
+        # the recorded bool~number conflation of distinct changes what reaches the terminating stage: when the defect model predicts
+        # another result for this case, whatever goes wrong in it (other elements, unbounded consumption) is that finding
+        known_key = None
+        if any(st[0] == "distinct" for st in pipe):
+            CONFLATE[0] = True
+            try:
+                twins = any(x is False for x in base) and any(x == 0 and x is not False for x in base) or any(x is True for x in base) and any(x == 1 and x is not True for x in base)
+                if twins or not eqv(ref_pipe(pipe, base * 4), want):
+                    # (with both twins in the input the conflating distinct never emits the second one, so a later stage may wait for ever)
+                    known_key = "C07/distinct/bool-num-conflation"
+            finally:
+                CONFLATE[0] = False
         results = {}
         for form in ("lazy", "sequence", "transduce", "into", "eduction"):
             pulls = {}
@@ -371,19 +391,30 @@ def worker(spec, out):
                 try:
                     got = from_lisp(f[form](src))
                     got = got or []
+                except PullBudget:
+                    out.violation(known_key or f"C07/early-termination/unbounded-consumption/{form}/{fn_set(pipe)}", {"pipeline": f["xf_text"], "form": form, "input": "infinite repetition of " + repr(base), "result_determined_by_first": len(base) * 8,
+                                                                                                      "elements_pulled": it.pulls, "expected": want}, case)
+                    break
                 except Exception as e:
-                    out.violation(f"C07/{fn_set(pipe)}/{form}/raises-{type(e).__name__}/infinite", {"pipeline": f["xf_text"], "input": label, "exc": repr(e)[:200]}, case)
+                    out.violation(known_key or f"C07/{fn_set(pipe)}/{form}/raises-{type(e).__name__}/infinite", {"pipeline": f["xf_text"], "input": label, "exc": repr(e)[:200]}, case)
                     break
                 pulls[label] = it.pulls
                 if not eqv(got, want):
-                    out.violation(f"C07/{fn_set(pipe)}/{form}/{'infinite' if inf else input_class(items)}", {"pipeline": f["xf_text"], "form": form, "input": label + " x " + repr(base), "expected": want, "got": got}, case)
+                    out.violation(known_key or f"C07/{fn_set(pipe)}/{form}/{'infinite' if inf else input_class(items)}", {"pipeline": f["xf_text"], "form": form, "input": label + " x " + repr(base), "expected": want, "got": got}, case)
                     break
             else:
                 out.ev((f["xf_text"], form, tuple(map(repr, base))))
                 if len(set(pulls.values())) != 1:
                     out.violation(f"C07/early-termination/pulls-depend-on-input-length/{form}", {"pipeline": f["xf_text"], "pulls": pulls, "base": base}, {"kind": "term", "pipe": [list(st) for st in pipe], "base": list(base), "form": form})
-                elif pulls["4L"] > len(want) + sum(1 for _ in pipe) * 4 + 8 and False:
-                    pass
+                elif last[0] == "take" and last[1] >= 1 and known_key is None and not any(st[0] in ("partition-all", "partition-by") for st in pipe):
+                    # the result is decided by the element that satisfies take n: nothing after it may be consumed
+                    seq8 = base * 8
+                    p_min = next((p for p in range(len(seq8) + 1) if len(ref_pipe(pipe, seq8[:p])) == last[1]), None)
+                    out.count("exact_consumption_checks")
+                    # (a lazy seq function may look one element ahead, e.g. to know whether a separator follows; reductions may not)
+                    if p_min is not None and pulls["inf"] > p_min + (1 if form == "lazy" else 0):
+                        out.violation(f"C07/early-termination/consumes-beyond-the-deciding-element/{form}", {"pipeline": f["xf_text"], "form": form, "base": base, "deciding_element_index": p_min, "elements_pulled": pulls["inf"]},
+                                      {"kind": "term", "pipe": [list(st) for st in pipe], "base": list(base), "form": form})
         # completion exactly once for transduce with an instrumented reducing function
         if f["xf"] is not None:
             calls = {"init": 0, "complete": 0, "step": 0}
